@@ -110,8 +110,8 @@ def scratch_vars(f):
     return out
 
 
-def r2_oldpin(ctx, prog):
-    r = ctx.rule('C04.R2', 'the old PIN is verified on a scratch SecureDataManager before any PIN change; a failed verification changes nothing', floor=5, engine='E1+E3 finite-domain')
+def r2_oldpin(ctx, prog, rule_id='C04.R2'):
+    r = ctx.rule(rule_id, 'the old PIN is verified on a scratch SecureDataManager before any PIN change; a failed verification changes nothing', floor=5, engine='E1+E3 finite-domain')
     for fname, login, own, foreign in (('Token::setUserPIN', 'loginUser', 'setUserPIN', 'setSOPIN'), ('Token::setSOPIN', 'loginSO', 'setSOPIN', 'setUserPIN')):
         f = prog.fn(fname)
         ctx.analysed(f)
